@@ -54,7 +54,9 @@ func runIntervals(cases []Case, outDir string) {
 			var comments []cm
 			for _, g := range f.Comments {
 				for _, x := range g.List {
-					comments = append(comments, cm{int(x.Pos()), int(x.End()), x.Text})
+					if strings.TrimSpace(x.Text) != "//" {
+						comments = append(comments, cm{int(x.Pos()), int(x.End()), x.Text})
+					}
 				}
 			}
 			snap := astdiff.Before(f, ast.NewCommentMap(fset, f, f.Comments))
@@ -105,7 +107,9 @@ func runIntervals(cases []Case, outDir string) {
 			var texts []string
 			for _, g := range of.Comments {
 				for _, x := range g.List {
-					texts = append(texts, x.Text)
+					if strings.TrimSpace(x.Text) != "//" { // inserted by gofmt before directives
+						texts = append(texts, x.Text)
+					}
 				}
 			}
 			sort.Strings(texts)
